@@ -147,6 +147,47 @@ def query_case(ctx, env, rng):
     return False
 
 
+def phrase_case(ctx, env, rng):
+    """phrase mode: the tool must keep at least what Tiles obliges (one direction, as the property states)"""
+    case = G.gen_phrase_case(rng, ctx.tier)
+    env["n"] += 1
+    vp = os.path.join(env["work"], "pv%d.txt" % env["n"])
+    mp = os.path.join(env["work"], "pm%d.txt" % env["n"])
+    open(vp, "wb").write(case["vocab"])
+    open(mp, "wb").write(case["model"])
+    st, files, cmd = G.run_filter(env["fbin"], env["work"], "p%d" % env["n"], case["mode"], case["context"], case["fmt"], 1, 1,
+                                  vp, case["model"], timeout=30, phrase=True)
+    nlines = sum(len(s) for s in case["in_sections"])
+    ctx.count(("phrase", case["mode"], case["context"], case["fmt"], case["model"], case["vocab"]),
+              nontrivial=len(case["sents"]) >= 2 and nlines >= 5)
+    ctx.hist("mode", "phrase-" + case["mode"] + ("+context" if case["context"] else ""))
+    ctx.hist("phrase_sentences", len(case["sents"]))
+    replay = {"stream": "filter/phrase", "cmd": cmd, "vocab": case["vocab"].decode("latin-1"),
+              "model": case["model"].decode("latin-1")}
+    if st != "ok":
+        ctx.violation("bin/filter phrase mode fails (%s)" % st, replay)
+        return True
+    d, kind = G.phrase_verdict(case, files, env["drv"], vp, mp, os.path.join(env["work"], "pd%d" % env["n"]))
+    if d is not None:
+        replay["tool"] = {k: v.decode("latin-1")[:3000] for k, v in files.items()}
+        ctx.violation("phrase mode: " + d, replay, no_input=(kind == "machinery"))
+        return True
+    # the oracle itself against literal enumeration of concatenations, on a sample
+    for _ in range(3):
+        if not case["sents"]:
+            break
+        ph = rng.choice(case["sents"])
+        sec = rng.choice(case["in_sections"])
+        if not sec or len(ph) > 4:
+            continue
+        g = G.phrase_words([w for w in G.ngram_of_line(rng.choice(sec), case["fmt"]).split(b" ") if w])
+        if g and len(g) <= 4 and G.py_tiles(ph, g) != G.brute_tiles(ph, g):
+            ctx.violation("Tiles oracle disagrees with the enumeration of concatenations", {"phrases": repr(ph), "ngram": repr(g)},
+                          no_input=True)
+            return True
+    return False
+
+
 def run(ctx):
     problems, consts = flow.proof_phase(ctx, "C11", required=REQUIRED, drivers=["drv_C11"])
     ok, bdir, lg = repo.build("tools", targets=["filter", "query"])
@@ -171,6 +212,13 @@ def run(ctx):
                 nviol += 1
                 if nviol >= 5:
                     break
+        np_ = 150 if ctx.tier == "quick" else 2000
+        for pi in range(np_):
+            if nviol >= 5:
+                break
+            if phrase_case(ctx, env, ctx.rng):
+                found = True
+                nviol += 1
         nq = 120 if ctx.tier == "quick" else 1500
         for qi in range(nq):
             if nviol >= 5:
